@@ -34,7 +34,9 @@ MANIFEST = dict(
           "to the tokenizer's attrValue given P.unescape = the model of html.unescape (reader_attr_is_tokenizer; the model is compared with "
           "the real html.unescape on every written value); the round trips are re-stated through Tokenizer.run (*_tokenized). Still "
           "RECORDED: html.unescape itself, and the reader on texts no substitution writes (numeric references, `&#` bail) — both reader "
-          "models are also compared with the real parser on every generated case. Text is read back inside <pre> (bs4 collapses whitespace-only strings elsewhere — builder "
+          "models are also compared with the real parser on every generated case. TWO READING CONTEXTS: text followed by a tag (readText: "
+          "all theorems, proved equal to the tokenizer) and text as the last thing of the document (readTextEnd: round trips proved for "
+          "all three substitutions, reader model compared with the real parser per case, not proved equal to the tokenizer). Text is read back inside <pre> (bs4 collapses whitespace-only strings elsewhere — builder "
           "policy). Decimal references of more than 4300 digits (C06) are not generated. The name round trip of the tables "
           "(HTML_ENTITY_TO_CHARACTER[CHARACTER_TO_HTML_ENTITY[k]] = k) is a decided fact of the live tables, not a consequence of the "
           "construction. The exact set of strings the OLD substitute_html5 round-trips is not characterised (sufficient condition + "
@@ -44,7 +46,7 @@ MANIFEST = dict(
 
 ALPHABET = "&<>\"';#x1alt"
 RUNAWAY = 0x110000
-NAMES = "xml xmlce html html5 html5raw quote html5old rt_xml q_xml ra_xml rt_html q_html ra_html rt_html5 q_html5 ra_html5 rt_raw ra_raw un_xml un_html un_html5".split()
+NAMES = "xml xmlce html html5 html5raw quote html5old rt_xml q_xml ra_xml rt_html q_html ra_html rt_html5 q_html5 ra_html5 rt_raw ra_raw un_xml un_html un_html5 rte_xml rte_html rte_html5 rte_raw".split()
 KF_LEGACY = "C09-html5-bare-legacy-ref"
 KF_NUMERIC = "C09-html5-bare-numeric-ref"
 KF_SEMI = "C09-html5-unknown-ref-semicolon-dropped"
@@ -72,6 +74,25 @@ def parse_back(text, quoted):
     if t.endswith("</pre>") and soup.find_all(True) == [pre]:
         t = t[:-6] + chr(0x10FFFF) + "RUNAWAY"
     return t, a
+
+
+_WS = set(" \n\t\x0c\r")
+
+
+def parse_end(text):
+    """the text the tree holds when `text` is the whole document (top-level text, nothing after it). Whitespace-only text
+    is returned as it stands (bs4 collapses such strings outside <pre>: builder policy, not entity handling)."""
+    import warnings
+    from bs4 import BeautifulSoup
+    if text and all(c in _WS for c in text):
+        return text
+    try:
+        with warnings.catch_warnings():
+            warnings.simplefilter("ignore")
+            soup = BeautifulSoup(text, "html.parser")
+    except Exception:
+        return None
+    return "".join(str(x) for x in soup.contents)
 
 
 def show_text(t):
@@ -226,6 +247,18 @@ def real_case(s):
     # P.unescape of the tokenizer theorems = the real html.unescape, on the bodies actually written between the quotes
     for o in (xml, html, html5):
         out.append(tok(_html.unescape(E.quoted_attribute_value(o)[1:-1])))
+    # the second reading context: the text is the last thing of the document (top level, no tag after it)
+    for name, o in (("xml", xml), ("html", html), ("html5", html5), ("raw", s)):
+        if "<" in o:
+            out.append("skip")
+            continue
+        t = parse_end(o)
+        out.append(tok(t) if t is not None else "exc")
+        if name != "raw" and t is not None and t != s:
+            fails.append(dict(what=f"text written with substitute_{name} as the LAST thing of a document (no tag after it) is read back differently",
+                              kind="text-roundtrip-end:" + name, kf=None, observed=tok(t), expected=tok(s), written=tok(o)))
+        if t != o:
+            br.add("reader:end-of-document-special")
     if not (len(quote) >= 2 and quote[0] == quote[-1] and quote[0] in "\"'" and quote[0] not in quote[1:-1]):
         fails.append(dict(what="quoted_attribute_value(s) is not a well-formed quoted value", kind="quote", kf=None, observed=tok(quote)))
     # input distribution
@@ -305,6 +338,22 @@ def gen_names():
         yield "&" + n + " y"
         yield "&" + n + "y;"
         yield "&" + n + "=1"
+
+
+def gen_end_of_document():
+    """texts that matter when nothing follows them: every known name x `-`/`.` x alphanumeric run, incomplete references,
+    `&#` forms"""
+    E = _E()
+    for n in sorted(E.HTML_ENTITY_TO_CHARACTER):
+        yield "&" + n + "-"
+        yield "&" + n + "."
+        yield "&" + n + "-x"
+        yield "x &" + n + ".x1"
+        yield "&" + n + "-a-b"
+    for s in ["&a", "x&a", "&A", "&Z9", "&ab", "&a-", "&a-b", "&a.b-c", "&#", "&#6", "&#65", "&#x", "&#x4", "&#x41", "&#X41", "&#65;", "&#;x&#",
+              "&", "&&", "&&a", "&lt", "&amp", "&Lt", "&Lt-x-y", "&Lt-x.y", "&Lt.-", "&Lt-x y", "&copy-", "&a&b", "&b;&a", "é&a", "&aé", "&a\n"]:
+        yield s
+        yield "abc " + s
 
 
 def gen_alphabet(n):
@@ -759,6 +808,7 @@ def run(ctx: Ctx):
     streams.append(("bmp-exhaustive", list(gen_bmp())))
     streams.append(("table-keys", list(gen_keys())))
     streams.append(("entity-names", list(gen_names())))
+    streams.append(("end-of-document", list(gen_end_of_document())))
     nalpha = 5 if ctx.thorough else 4
     streams.append((f"alphabet<={nalpha}", list(gen_alphabet(nalpha))))
     streams.append(("random", list(gen_random(ctx.rng("random"), ctx.n(8000, 80000)))))
@@ -803,6 +853,16 @@ def run(ctx: Ctx):
             ctx.count("oracle-fail:" + f["kind"] + (":known" if f.get("kf") else ""))
             ctx.violation(f["what"], case=case | {"kind": f["kind"], "kinds": f.get("kinds"), "written": f.get("written")},
                           expected=f.get("expected"), observed=f.get("observed"), stream=stream, kf=f.get("kf"))
+        if impl != model and "rte_" in " ".join(NAMES):
+            # a text that is whitespace-only AFTER decoding (`&Tab;`) is collapsed by bs4 outside <pre>: builder policy
+            def ws(x):
+                return x not in ("skip", "exc", "-") and all(chr(int(c)) in _WS for c in x.split(","))
+            a, b = impl.split(" "), model.split(" ")
+            if len(a) == len(b) == len(NAMES):
+                for i, n in enumerate(NAMES):
+                    if n.startswith("rte_") and a[i] != b[i] and ws(a[i]) and ws(b[i]):
+                        b[i] = a[i]
+                model = " ".join(b)
         if impl != model:
             ctx.corr_disagreements += 1
             a, b = impl.split(" "), model.split(" ")
